@@ -753,6 +753,36 @@ def add_context_gadget(rnd, spec):
                                           mk(sheet, r0 + 1, 5), mk(sheet, r0 + 2, 5)])
 
 
+def add_table_gadget(rnd, spec):
+    """the same small table at the same place on up to two sheets; the formulas of its last
+    column and a total next to it are written with structured references ([@qty], Tbl0[total]).
+    Only for workbooks that are built in memory (the xlsx stub writes no tables)."""
+    sheets = [s_ for s_ in spec['sheets'] if s_ != spec.get('data_sheet')][:2]
+    r0 = 45
+    cols = ('qty', 'price', 'total')
+    n = rnd.randint(2, 3)
+    for k, sheet in enumerate(sheets):
+        name = f'Tbl{k}'
+        for c, head in enumerate(cols):
+            a = mk(sheet, r0, c + 1)
+            spec['cells'].append({'a': a, 'v': head})
+            spec.setdefault('pinned', []).append(a)
+        totals = []
+        for r in range(r0 + 1, r0 + 1 + n):
+            qa, pa, ta = mk(sheet, r, 1), mk(sheet, r, 2), mk(sheet, r, 3)
+            spec['cells'].append({'a': qa, 'v': rnd.choice((1, 2, 3, 5, 10)) + 100 * k})
+            spec['cells'].append({'a': pa, 'v': rnd.choice((0.5, 2, 4))})
+            spec['cells'].append({'a': ta, 'f': '=[@qty]*[@price]', 'p': [qa, pa], 'd': []})
+            totals.append(ta)
+        rng = f'{sheet}!C{r0 + 1}:C{r0 + n}'
+        e = mk(sheet, r0, 5)
+        spec['cells'].append({'a': e, 'f': f'=SUM({name}[total])+1', 'p': list(totals), 'd': [],
+                              'r': [rng]})
+        spec.setdefault('tables', []).append(
+            {'sheet': sheet, 'name': name, 'ref': f'A{r0}:C{r0 + n}', 'cols': list(cols)})
+        spec.setdefault('gadget', []).extend(totals + [e])
+
+
 # ---------------------------------------------------------------------------
 # materialisers
 
@@ -809,6 +839,11 @@ def to_workbook(spec, overrides=None):
     for n, target in spec.get('names', {}).items():
         sheet, coords = split_addr(target)
         wb.defined_names[n] = DefinedName(n, attr_text=f'{quote_sheet(sheet)}!{coords}')
+    for t in spec.get('tables', []):
+        from openpyxl.worksheet.table import Table, TableColumn
+        table = Table(displayName=t['name'], ref=t['ref'])
+        table.tableColumns = [TableColumn(id=i + 1, name=h) for i, h in enumerate(t['cols'])]
+        sheets[t['sheet']].add_table(table)
     if spec.get('iter'):
         wb.calculation = CalcProperties(
             iterate=True, iterateCount=spec['iter'][0], iterateDelta=spec['iter'][1])
